@@ -431,7 +431,21 @@ def url_validated(chk, repo, errs, rule):
     for t in tries:
         if not any(isinstance(a, ast.Assign) and norm.raw(a.targets[0]) == "url" for s_ in t.body for a in ast.walk(s_)):
             continue  # a validation-only construction (Host header): nothing is kept, nothing is read lazily later
-        forced = any(isinstance(n, ast.Attribute) and n.attr in ("host", "port", "raw_host", "authority", "explicit_port") and norm.raw(n.value) == "url" for s in t.body for n in ast.walk(s))
+        forced_attrs = {n.attr for s in t.body for n in ast.walk(s) if isinstance(n, ast.Attribute) and n.attr in ("host", "port", "raw_host", "authority", "explicit_port") and norm.raw(n.value) == "url"}
+        # what the request object reads from the target outside any protection must have been forced here: `.host` also IDNA-decodes the
+        # name (UnicodeError), which the cheaper `.raw_host` / `.port` do not
+        IMPLIES = {"host": {"host", "raw_host"}, "raw_host": {"raw_host"}, "port": {"port", "explicit_port"}, "explicit_port": {"explicit_port"}, "authority": {"authority", "host", "raw_host", "port", "explicit_port"}}
+        covered = set().union(*[IMPLIES.get(a, {a}) for a in forced_attrs]) if forced_attrs else set()
+        try:
+            bri = repo.func("aiohttp/web_request.py", "BaseRequest.__init__")
+            used = {n.attr for n in ast.walk(bri.node) if isinstance(n, ast.Attribute) and n.attr in IMPLIES and norm.raw(n.value) in ("url", "message.url")}
+        except AnalysisError:
+            used = set()
+        forced = bool(forced_attrs) and used <= covered
+        if forced_attrs and not forced:
+            chk.violation(rule, t, "try: url = URL(...)", f"url.{sorted(used - covered)[0]} inside the try",
+                          f"BaseRequest.__init__ reads `url.{sorted(used - covered)[0]}` outside any protection, but the parser only forces `{', '.join('url.' + a for a in sorted(forced_attrs))}`: a target whose host splits fine but cannot be IDNA-decoded (`http://xn--a/`, a non-ASCII byte in the host) is accepted by the parser and raises UnicodeError in the unprotected part of the request loop - the client gets no response at all instead of a 400")
+            continue
         if forced:
             chk.ok(rule, t, "the lazily validated host/port split is forced inside the same try (BaseRequest.__init__ and handlers can read it safely)")
         else:
